@@ -360,6 +360,7 @@ def basic_index(t, key, ctx=None, wrap=True, site=None):
         i = [j for j, k in enumerate(key) if k is Ellipsis][0]
         fill = t.rank - n_real
         key = key[:i] + (slice(None),) * fill + key[i + 1:]
+        n_real = sum(1 for k in key if k is not None and k is not Ellipsis)
     if n_real > t.rank:
         if ctx is not None:
             ctx.raise_now('IndexError')
